@@ -16,7 +16,9 @@ def main():
             except Exception as e:
                 print('setup: translator for %s failed: %s' % (pid, e))
     core.ensure_makefile()
-    r, out = core.sh(['make', '-j%d' % core.NPROC], 3000, cwd=core.COQ)
+    # full .vo build of exactly what the claimed properties need (files of unclaimed, in-progress properties are not built)
+    targets = ['theories/Properties/%s.vo' % pid for pid in pids]
+    r, out = core.sh(['make', '-k', '-j%d' % core.NPROC] + targets, 3000, cwd=core.COQ)
     print(out[-3000:])
     if r != 0:
         rc = 1
